@@ -418,4 +418,6 @@ def run(run: Run):
     run.floor('C07.R1', 70)
     run.floor('C07.R2', 2)
     run.floor('C07.R3', 1)
+    from .common import shared_mechanisms as _shared
+    _shared(run, 'C07', 8, ['rejections'])
     return INFO
